@@ -267,6 +267,50 @@ func (c *c18Sess) do(op c18Op) *ev.Failure {
 	return nil
 }
 
+// c18SoakCase: one long session on a de-duplication window that is not small: thousands of
+// sightings, most of them repeats of a few hot ids, the rest spread over more ids than the
+// window holds.
+func c18SoakCase(t *rapid.T) (kind string, n int, scripts [][]c18Op, concurrent bool) {
+	kind = rapid.SampledFrom([]string{"recvunique", "sendunique"}).Draw(t, "middleware")
+	n = rapid.SampledFrom([]int{3, 64, 65, 100, 128, 1000}).Draw(t, "n")
+	nids := n + n/2 + 3
+	opk := "EVENT"
+	if kind == "sendunique" {
+		opk = "SRV-EVENT"
+	}
+	var sc []c18Op
+	add := func(id int) { sc = append(sc, c18Op{Kind: opk, ID: fmt.Sprint("e", id)}) }
+	// phase A: one id over and over. Its length sits around a round number (plus the window
+	// size): internal queues, sweeps and counters tend to act at such counts.
+	if rapid.Bool().Draw(t, "pure_repeats") {
+		r := rapid.SampledFrom([]int{256, 512, 1024, 1024, 1024, 2048}).Draw(t, "round") + n + rapid.IntRange(-2, 4).Draw(t, "delta")
+		for j := 0; j < r; j++ {
+			add(0)
+		}
+	} else {
+		for j, r := 0, rapid.IntRange(600, 1500).Draw(t, "len_a"); j < r; j++ {
+			if rapid.IntRange(0, 19).Draw(t, fmt.Sprintf("a%d.cold", j)) == 0 {
+				add(rapid.IntRange(0, nids-1).Draw(t, fmt.Sprintf("a%d.id", j)))
+			} else {
+				add(rapid.IntRange(0, 2).Draw(t, fmt.Sprintf("a%d.hot", j)))
+			}
+		}
+	}
+	// phase B: exactly n other ids, each once (they are the window now); phase C: the same
+	// again, oldest first (every one of them is inside the window)
+	for id := 1; id <= n; id++ {
+		add(id)
+	}
+	for id := 1; id <= n; id++ {
+		add(id)
+	}
+	// phase D: mixed
+	for j, r := 0, rapid.IntRange(100, 600).Draw(t, "len_d"); j < r; j++ {
+		add(rapid.IntRange(0, nids-1).Draw(t, fmt.Sprintf("d%d.id", j)))
+	}
+	return kind, n, [][]c18Op{sc}, false
+}
+
 func c18Case(t *rapid.T) (kind string, n int, scripts [][]c18Op, concurrent bool) {
 	kind = rapid.SampledFrom([]string{"quota", "recvunique", "sendunique"}).Draw(t, "middleware")
 	n = rapid.IntRange(1, 4).Draw(t, "n")
@@ -305,11 +349,19 @@ func c18Case(t *rapid.T) (kind string, n int, scripts [][]c18Op, concurrent bool
 	return
 }
 
-func TestC18Stateful(t *testing.T) {
+func TestC18Stateful(t *testing.T) { c18Run(t, c18Case, false) }
+
+// TestC18Soak: the same models over one long session and windows of up to 1000 ids.
+func TestC18Soak(t *testing.T) { c18Run(t, c18SoakCase, true) }
+
+func c18Run(t *testing.T, draw func(*rapid.T) (string, int, [][]c18Op, bool), soak bool) {
 	col := ev.For("C18").SetRule(c18Rule)
 	rapid.Check(t, func(t *rapid.T) {
-		kind, n, scripts, concurrent := c18Case(t)
+		kind, n, scripts, concurrent := draw(t)
 		desc := map[string]any{"middleware": kind, "n": n, "scripts": scripts, "concurrent": concurrent}
+		if soak {
+			desc = map[string]any{"middleware": kind, "n": n, "mode": "soak: one session", "operations": len(scripts[0]), "script": scripts[0]}
+		}
 		var mw mocrelay.Middleware
 		switch kind {
 		case "quota":
@@ -389,6 +441,9 @@ func TestC18Stateful(t *testing.T) {
 		} else {
 			col.Label("mode:sequential")
 		}
-		col.Case(anyFlip && len(scripts) >= 2, hx.JSON(desc), func() any { return desc })
+		if soak {
+			col.Label("mode:soak")
+		}
+		col.Case(anyFlip && (len(scripts) >= 2 || soak), hx.JSON(desc), func() any { return desc })
 	})
 }
